@@ -481,6 +481,8 @@ def current_operands(ctx, rule, only=None):
 def run(ctx):
     from .configtime import derived_values as _derived
     _derived(ctx, 'C08.R1', ('Recipe', 'RecipeStep', 'Slicer', 'PlateSlicer', 'Plate'))
+    from .configtime import decisions_not_taken_on_display_values as _coarse
+    _coarse(ctx, 'C08.R1', ('Container', 'Plate', 'PlateSlicer', 'Recipe', 'RecipeStep'))
     from .configtime import declarations_do_not_read_state as _decl_state
     _decl_state(ctx, 'C08.R7', ('Recipe.transfer', 'Recipe.create_solution', 'Recipe.create_solution_from', 'Recipe.remove',
                                 'Recipe.dilute', 'Recipe.fill_to'))
@@ -551,6 +553,7 @@ def run(ctx):
                why='a step takes effect before bake', key=f"effect before bake in {fi.name}")
     recorded_operands(ctx, 'C08.R3')
     declaration_refusals(ctx, 'C08.R7')
+    operands_recorded_as_given(ctx, 'C08.R7')
     # ---------------------------------------------------------------- R4 order
     loops = [s for s in bake.node.body if isinstance(s, ast.For)]
     step_loops = [l for l in loops if path_from_param(ff.resolved.get(id(l))) == ('self', ['steps'])]
@@ -598,3 +601,42 @@ def run(ctx):
                            'destination. R3: step-adding methods call no operation and write no result. R4: one loop over '
                            'self.steps itself; steps are only appended. R5: one application per step. R6: bake returns '
                            'self.results. Not decided: equality of the baked objects with an eager fold for all programs.'}
+
+
+def operands_recorded_as_given(ctx, rule):
+    """A step is carried out with the operands the user wrote.  The text operands of a declaration (quantity,
+    concentration, capacity: parameters annotated `str`) reach `RecipeStep(..)` as the parameter itself - not re-rendered
+    (`f"{value:g} {unit}"` keeps six digits), not rebound on the way."""
+    model = ctx.model.plain()
+    n = 0
+    for fi in model.funcs.values():
+        if fi.cls is None or fi.cls.name != 'Recipe' or fi.parent is not None:
+            continue
+        calls = [c for c in ast.walk(fi.node) if isinstance(c, ast.Call) and isinstance(c.func, ast.Name) and c.func.id == 'RecipeStep']
+        if not calls:
+            continue
+        a = fi.node.args
+        text = {p.arg for p in a.posonlyargs + a.args + a.kwonlyargs if p.annotation is not None and
+                'str' in ast.unparse(p.annotation).replace('Substance', '').split('[')[0]}
+        text.discard('name')        # the name of a new container is chosen by the declaration when it is not given
+        rebound = {}
+        for x in ast.walk(fi.node):
+            if isinstance(x, ast.Name) and isinstance(x.ctx, ast.Store) and x.id in text:
+                rebound.setdefault(x.id, x.lineno)
+        for c in calls:
+            for arg in list(c.args[2:]) + [k.value for k in c.keywords]:
+                inside = sorted({y.id for y in ast.walk(arg) if isinstance(y, ast.Name) and y.id in text})
+                if not inside:
+                    continue
+                for p in inside:
+                    n += 1
+                    verbatim = isinstance(arg, ast.Name) or (isinstance(arg, (ast.Tuple, ast.List, ast.Dict)) and any(
+                        isinstance(e, ast.Name) and e.id == p for e in ast.walk(arg) if isinstance(getattr(e, 'parent', None), (ast.Tuple, ast.List, ast.Dict))))
+                    ok = verbatim and p not in rebound
+                    ctx.ob(rule, fi, c.lineno, f"{fi.qualname}: the step records `{p}` as it was given", ok,
+                           fact=(f"`{p}` is rebound at line {rebound[p]}" if p in rebound else
+                                 ('passed on as the parameter itself' if verbatim else f"recorded as `{ast.unparse(arg)[:70]}`")),
+                           why='the step is carried out with another quantity text than the eager call would get: a re-rendered number loses digits',
+                           key=f"text operand {p} not verbatim")
+    from .common import floor as _floor
+    _floor(ctx, 'text operands recorded by declarations', n, 4)
